@@ -328,6 +328,12 @@ func (fr *Frame) execInstr(in ssa.Instruction, st *State) *State {
 		a := MkLoc(o, IntLit(0))
 		fr.zeroInit(st, derefType(x.Type()), a)
 		fr.setReg(x, a)
+		switch x.Comment {
+		case "", "varargs", "slicelit", "complit", "makeslice", "new", "arraylit", "maplit":
+		default:
+			// an addressable local variable (captured or address-taken): contracts refer to it by name
+			st.env[x.Comment] = envEntry{val: fr.regs[x], typ: derefType(x.Type()), isAddr: true}
+		}
 		return st
 	case *ssa.UnOp:
 		return fr.execUnOp(x, st)
